@@ -33,7 +33,16 @@ func runC12(t *testing.T, r *kit.Run) {
 	var wl uint64
 	sampled := false
 	for hi := 0; hi < c12Batch; hi++ {
-		h := genHistory(r.Tape, genOpts{hard: true, allowInconsistent: true, pre: true, maxUploads: 16, maxKids: 6})
+		// a low rate of long histories (up to 240 uploads): code that treats long parent histories differently
+		// (batching, parallel sorting above a size) never runs on the usual 1-16 uploads
+		mu := 16
+		if r.Tape.Chance(1, 48) {
+			mu = 240
+		}
+		h := genHistory(r.Tape, genOpts{hard: true, allowInconsistent: true, pre: true, maxUploads: mu, maxKids: 6})
+		if len(h.parents) >= 64 {
+			r.Out.ProbeN("histories-with-64-or-more-parent-versions", 1)
+		}
 		faulty := r.Tape.Chance(1, 5)
 		p := genPlan(r.Tape, h, faulty)
 		var ao annOpts
